@@ -41,11 +41,19 @@ fn diff(got: &BTreeMap<Key, Val>, want: &BTreeMap<Key, Val>) -> String {
 /// The recovery rule: `got` must equal model.live(p) for one boundary p in lo..=hi.
 /// On failure, says whether the known rotation-straddle finding explains all of it.
 pub fn judge_contents(model: &Model, got: &BTreeMap<Key, Val>, lo: u64, hi: u64) -> (Option<u64>, Option<Violation>) {
+	judge_contents_ctx(model, got, lo, hi, false)
+}
+
+/// `recovery_flushed`: the crash point lies after a flush performed by a recovery (a table
+/// was written before the first commit of that session).
+pub fn judge_contents_ctx(model: &Model, got: &BTreeMap<Key, Val>, lo: u64, hi: u64, recovery_flushed: bool) -> (Option<u64>, Option<Violation>) {
 	let bounds = model.boundaries();
 	if let Some(b) = bounds.iter().rev().find(|b| **b >= lo && **b <= hi && model.live(**b) == *got) {
 		return (Some(*b), None);
 	}
-	let any = bounds.iter().rev().find(|b| model.live(**b) == *got).copied();
+	// equal maps can occur at several boundaries: prefer the largest one not beyond `hi`
+	let matching: Vec<u64> = bounds.iter().filter(|b| model.live(**b) == *got).copied().collect();
+	let any = matching.iter().rev().find(|b| **b <= hi).or(matching.first()).copied();
 	let mut v = match any {
 		Some(b) if b < lo => Violation::new(
 			"acked_lost",
@@ -73,7 +81,7 @@ pub fn judge_contents(model: &Model, got: &BTreeMap<Key, Val>, lo: u64, hi: u64)
 	// explanation predicate "rotation_straddle": some boundary p in the window exists such
 	// that every key's recovered value is reachable by dropping only writes of commits whose
 	// log record sits in a different WAL segment than the memtable their data was applied to
-	if model.commits.iter().any(|c| c.straddled()) && v.class != "future_data" {
+	if model.commits.iter().any(|c| c.straddled()) {
 		let mut keys: Vec<Key> = model.all_keys();
 		for k in got.keys() {
 			if !keys.contains(k) {
@@ -87,6 +95,31 @@ pub fn judge_contents(model: &Model, got: &BTreeMap<Key, Val>, lo: u64, hi: u64)
 				let lost: Vec<u64> = model.commits.iter().filter(|c| c.straddled() && c.last_seq <= *p).map(|c| c.txn).collect();
 				v.detail = format!("{} [explained by known finding rotation_straddle: only writes of straddled transactions {:?} are missing]", v.detail, lost);
 				break;
+			}
+		}
+	}
+	// explanation predicate "recovery_split_flush": the crash happened after a recovery had
+	// flushed an intermediate memtable, and everything that is missing was logged in one
+	// single WAL segment S (replay split S over two memtables, the flush of the first
+	// advanced log_number past S)
+	if v.explained.is_none() && recovery_flushed {
+		let mut segs: Vec<u64> = model.commits.iter().filter_map(|c| c.logged_wal).collect();
+		segs.sort();
+		segs.dedup();
+		let mut keys: Vec<Key> = model.all_keys();
+		for k in got.keys() {
+			if !keys.contains(k) {
+				keys.push(k.clone());
+			}
+		}
+		'outer: for seg in segs {
+			for p in bounds.iter().filter(|b| **b >= lo && **b <= hi) {
+				let ok = keys.iter().all(|k| model.possible(k, *p, &|c| c.logged_wal == Some(seg)).contains(&got.get(k).cloned()));
+				if ok {
+					v.explained = Some("recovery_split_flush".into());
+					v.detail = format!("{} [explained by known finding recovery_split_flush: only writes logged in WAL segment {} are missing]", v.detail, seg);
+					break 'outer;
+				}
 			}
 		}
 	}
@@ -118,7 +151,8 @@ pub fn read_all(tree: &surrealkv::Tree, keys: &[Key]) -> Result<BTreeMap<Key, Va
 /// Open the store on `dir` (traced), read everything, and judge against the recovery
 /// rule: contents == model.live(p) for one commit boundary p with lo <= p <= hi.
 /// `deep`: additionally commit a probe write, close cleanly, reopen and compare.
-pub fn recover_check(opts: &StoreOpts, dir: &Path, model: &Model, lo: u64, hi: u64, keys: &[Key], deep: bool, seed: u64) -> RecResult {
+#[allow(clippy::too_many_arguments)]
+pub fn recover_check(opts: &StoreOpts, dir: &Path, model: &Model, lo: u64, hi: u64, keys: &[Key], deep: bool, seed: u64, recovery_flushed: bool) -> RecResult {
 	let opts = opts.clone();
 	let dir = dir.to_path_buf();
 	let model = model.clone();
@@ -151,7 +185,7 @@ pub fn recover_check(opts: &StoreOpts, dir: &Path, model: &Model, lo: u64, hi: u
 						return (Some(v), None, BTreeMap::new());
 					}
 				};
-				let (p, mut viol) = judge_contents(&model, &got, lo, hi);
+				let (p, mut viol) = judge_contents_ctx(&model, &got, lo, hi, recovery_flushed);
 				if viol.is_none() && deep {
 					viol = deep_checks(&tree, &opts, &dir, &got, &all_keys).await;
 					return (viol, p, got);
